@@ -155,6 +155,9 @@ type ssaEval struct {
 	// starts as modelled zero cells, as the language defines it — not only the storage of make —,
 	// a load of the whole array yields its elements, a store of such a value sets the elements
 	arrays bool
+	// composeSlices (ext_x10.go): a slice of a slice of an array cell is a slice of that cell
+	// (arr[:][1:] is arr[1:]), so its length and elements are those of the array
+	composeSlices bool
 }
 
 type strIter struct {
@@ -722,6 +725,12 @@ func (e *ssaEval) instr(fr *frame, ins ssa.Instruction) {
 				}
 			}
 		}
+		if e.composeSlices {
+			if r, ok := e.composeSliceX10(fr, x, a); ok {
+				set(x, r)
+				return
+			}
+		}
 		if a.k == svSym || a.k == svAddr {
 			lo, hi := sv{k: svSym, s: "_"}, sv{k: svSym, s: "_"}
 			if x.Low != nil {
@@ -776,6 +785,9 @@ func (e *ssaEval) instr(fr *frame, ins ssa.Instruction) {
 			return
 		}
 		if a.k == svAddr && e.storeArray(x, a, v) {
+			return
+		}
+		if a.k == svAddr && e.concrete() && e.storeZeroStructX10(x, a) {
 			return
 		}
 		if a.k == svAddr {
